@@ -16,6 +16,7 @@ CONSTANTS
     Writers,     \* set of writer process names, e.g. {"W1","W2"}
     Prog,        \* [Writers -> Seq(kind)], kind \in {"W1","Wv","CW1","CWv"}
     CtxOf,       \* [Writers -> Seq({"bg","dead","mortal"})] caller context per op
+    NChunks,     \* [Writers -> Seq(Nat)] low-level writes an op consists of (1 except ReadFrom / multi-write messages)
     Closers,     \* set of closer process names, e.g. {"C1"}
     CloseArg,    \* [Closers -> {"nil","e1","e2","e3"}]
     SenderIds,   \* sequence of sender-incarnation names <<"S1","S2",...>>
@@ -31,7 +32,7 @@ CONSTANTS
 
 VARIABLES
     pc, stack,           \* control state per process
-    opi, wret,           \* per writer: index of current op, results so far
+    opi, chk, wret,      \* per writer: index of current op, current chunk of it, results so far
     queue, waitq,        \* write queue (payload ids), writers parked in select (FIFO)
     running, closed,     \* the two atomics
     closeErr, werr,      \* stored close error ("unset" before), error of the winning Close
@@ -46,7 +47,7 @@ VARIABLES
     \* history (observation only)
     acc, begun, before, returned, okset, accAtClose, closeRet, lateBegun, drainedOK, fatal
 
-vars == <<pc, stack, opi, wret, queue, waitq, running, closed, closeErr, werr,
+vars == <<pc, stack, opi, chk, wret, queue, waitq, running, closed, closeErr, werr,
           ctxDone, tclosed, tcloses, tlog, flushed, batch, nexts, mutex, mwait,
           polls, carg, inactives, actives, reads, readsLeft, rinflight, faults,
           cancelled, acc, begun, before, returned, okset, accAtClose, closeRet,
@@ -60,10 +61,15 @@ Ops      == {<<w, i>> : w \in Writers, i \in 1..4}
 BatchCap == (QSize \div 2) + 1
 Async    == QSize > 0
 
-Cur(w)   == <<w, opi[w]>>
+OpId(w)  == <<w, opi[w]>>                 \* the current call of writer w
+Cur(w)   == <<w, opi[w], chk[w]>>         \* the payload (chunk) its current low-level write carries
+OpOf(c)  == <<c[1], c[2]>>
+LastChunk(w) == chk[w] >= NChunks[w][opi[w]]
+ChunksOf(o) == {<<o[1], o[2], j>> : j \in 1..NChunks[o[1]][o[2]]}
+MultiKinds == {"RF", "MR", "MT"}          \* ReadFrom, Write(io.Reader), Write(io.WriterTo)
 Kind(w)  == Prog[w][opi[w]]
 Ctx(w)   == CtxOf[w][opi[w]]
-IsVec(k) == k \in {"Wv", "CWv"}
+IsVec(k) == k \in {"Wv", "CWv", "MV"}
 WGate(w) == IF IsVec(Kind(w)) THEN "t.writev" ELSE "t.write"
 
 Pos(s, x) == CHOOSE i \in 1..Len(s) : s[i] = x
@@ -72,7 +78,8 @@ ParkedPcs == {"w.blocked", "m.wait", "r.blocked", "v.wait", "msg.wait"}
 
 \* "M" = Channel.Write(message) with a []byte message: closed test, then the pipeline's head
 \* handler calls Write1; an error of Write1 becomes an exception and Write still returns nil
-EntryPc(k) == IF k = "M" THEN "m.enter" ELSE "w.enter"
+MsgKinds == {"M", "MV", "MR", "MT"}             \* calls of Channel.Write(message)
+EntryPc(k) == IF k \in MsgKinds THEN "m.enter" ELSE IF k = "RF" THEN "rf.enter" ELSE "w.enter"
 
 \* result of a write that lost against the channel context
 CloseRes == IF FixClosed THEN "closed"
@@ -89,6 +96,7 @@ I0 == [
                ELSE "none"],
     stack |-> [p \in Procs |-> <<>>],
     opi |-> [w \in Writers |-> 1],
+    chk |-> [w \in Writers |-> 1],
     wret |-> [w \in Writers |-> <<>>],
     batch |-> [p \in Procs |-> <<>>],
     polls |-> [p \in Procs |-> 0],
@@ -98,7 +106,7 @@ I0 == [
     before |-> [o \in Ops |-> {}] ]
 
 Init ==
-    /\ pc = I0.pc /\ stack = I0.stack /\ opi = I0.opi /\ wret = I0.wret
+    /\ pc = I0.pc /\ stack = I0.stack /\ opi = I0.opi /\ chk = I0.chk /\ wret = I0.wret
     /\ queue = <<>> /\ waitq = <<>>
     /\ running = 0 /\ closed = 0
     /\ closeErr = "unset" /\ werr = "unset"
@@ -118,7 +126,7 @@ Init ==
 
 \* the same, on the primed variables
 Reset ==
-    /\ pc' = I0.pc /\ stack' = I0.stack /\ opi' = I0.opi /\ wret' = I0.wret
+    /\ pc' = I0.pc /\ stack' = I0.stack /\ opi' = I0.opi /\ chk' = I0.chk /\ wret' = I0.wret
     /\ queue' = <<>> /\ waitq' = <<>>
     /\ running' = 0 /\ closed' = 0
     /\ closeErr' = "unset" /\ werr' = "unset"
@@ -143,7 +151,7 @@ Reset ==
 NextWPc(w) == IF opi[w] < Len(Prog[w]) THEN EntryPc(Prog[w][opi[w] + 1]) ELSE "done"
 
 \* what the caller of op w sees when the low-level write produced r
-Seen(w, r) == IF Kind(w) = "M" /\ pc[w] \notin {"m.enter", "msg.wait"} /\ r # "ok" THEN "mexc" ELSE r
+Seen(w, r) == IF Kind(w) \in MsgKinds /\ pc[w] \notin {"m.enter", "msg.wait"} /\ r # "ok" THEN "mexc" ELSE r
 
 \* new pc function after: process p moves to np, writers in DOMAIN fin finish,
 \* extra is a function of additional pc overrides
@@ -152,10 +160,11 @@ PcAfter(over) == [q \in Procs |-> IF q \in DOMAIN over THEN over[q] ELSE pc[q]]
 FinishAll(fin) ==
     /\ wret' = [w \in Writers |-> IF w \in DOMAIN fin THEN Append(wret[w], Seen(w, fin[w])) ELSE wret[w]]
     /\ opi' = [w \in Writers |-> IF w \in DOMAIN fin THEN opi[w] + 1 ELSE opi[w]]
-    /\ returned' = returned \cup {Cur(w) : w \in DOMAIN fin}
-    /\ okset' = okset \cup {Cur(w) : w \in {x \in DOMAIN fin : fin[x] = "ok"}}
+    /\ chk' = [w \in Writers |-> IF w \in DOMAIN fin THEN 1 ELSE chk[w]]
+    /\ returned' = returned \cup {OpId(w) : w \in DOMAIN fin}
+    /\ okset' = okset \cup {OpId(w) : w \in {x \in DOMAIN fin : fin[x] = "ok"}}
 
-NoFinish == UNCHANGED <<wret, opi, returned, okset>>
+NoFinish == UNCHANGED <<wret, opi, chk, returned, okset>>
 
 FinPcs(fin) == [w \in DOMAIN fin |-> NextWPc(w)]
 
@@ -164,6 +173,15 @@ Merge(f, g) == [x \in (DOMAIN f) \cup (DOMAIN g) |-> IF x \in DOMAIN f THEN f[x]
 
 One(k, v) == [x \in {k} |-> v]
 Empty == [x \in {} |-> "x"]
+
+\* the low-level write of w's current chunk succeeded: next chunk, or the call returns ok
+ChunkDone(w, overPc) ==
+    IF LastChunk(w)
+    THEN /\ FinishAll(One(w, "ok")) /\ pc' = PcAfter(Merge(One(w, NextWPc(w)), overPc))
+    ELSE /\ chk' = [chk EXCEPT ![w] = @ + 1]
+         /\ UNCHANGED <<wret, opi, returned, okset>>
+         /\ pc' = PcAfter(Merge(One(w, "w.enter"), overPc))
+
 
 \* routine return: pop the continuation
 RetPc(p) == IF stack[p] = <<>> THEN "done" ELSE Head(stack[p])
@@ -185,31 +203,48 @@ Unlock(w, overPc) ==
 \* context and returns the stored close error
 MEnter(w) ==
     /\ pc[w] = "m.enter"
-    /\ begun' = begun \cup {Cur(w)}
-    /\ before' = [before EXCEPT ![Cur(w)] = returned]
-    /\ lateBegun' = IF closeRet THEN lateBegun \cup {Cur(w)} ELSE lateBegun
+    /\ begun' = begun \cup {OpId(w)}
+    /\ before' = [before EXCEPT ![OpId(w)] = returned]
+    /\ lateBegun' = IF closeRet THEN lateBegun \cup {OpId(w)} ELSE lateBegun
     /\ UNCHANGED <<stack, queue, waitq, running, closed, closeErr, werr, ctxDone, tclosed,
                    tcloses, tlog, flushed, batch, nexts, polls, carg, inactives, actives,
                    reads, readsLeft, rinflight, faults, cancelled, acc, accAtClose, closeRet, drainedOK,
                    mutex, mwait, fatal>>
     /\ IF closed = 0
-       THEN /\ NoFinish /\ pc' = PcAfter(One(w, "w.enter"))
+       THEN /\ NoFinish /\ pc' = PcAfter(One(w, IF Kind(w) = "MR" THEN "rf.enter" ELSE "w.enter"))
        ELSE IF ctxDone
             THEN /\ FinishAll(One(w, CloseRes)) /\ pc' = PcAfter(One(w, NextWPc(w)))
             ELSE /\ NoFinish /\ pc' = PcAfter(One(w, "msg.wait"))
 
+\* ReadFrom: its own closed test before the first chunk is read
+RFEnter(w) ==
+    /\ pc[w] = "rf.enter"
+    /\ IF Kind(w) = "RF"
+       THEN /\ begun' = begun \cup {OpId(w)}
+            /\ before' = [before EXCEPT ![OpId(w)] = returned]
+            /\ lateBegun' = IF closeRet THEN lateBegun \cup {OpId(w)} ELSE lateBegun
+       ELSE UNCHANGED <<begun, before, lateBegun>>
+    /\ UNCHANGED <<stack, queue, waitq, running, closed, closeErr, werr, ctxDone, tclosed,
+                   tcloses, tlog, flushed, batch, nexts, polls, carg, inactives, actives,
+                   reads, readsLeft, rinflight, faults, cancelled, acc, accAtClose, closeRet, drainedOK,
+                   mutex, mwait, fatal>>
+    /\ IF \/ FixClosed /\ closed = 1
+          \/ ~FixClosed /\ closeErr \notin {"unset", "nil"}
+       THEN /\ FinishAll(One(w, "closed")) /\ pc' = PcAfter(One(w, NextWPc(w)))
+       ELSE /\ NoFinish /\ pc' = PcAfter(One(w, "w.enter"))
+
 WEnter(w) ==
     /\ pc[w] = "w.enter"
-    /\ IF Kind(w) = "M"
+    /\ IF Kind(w) \in MsgKinds \/ Kind(w) = "RF" \/ chk[w] > 1
        THEN UNCHANGED <<begun, before, lateBegun>>
-       ELSE /\ begun' = begun \cup {Cur(w)}
-            /\ before' = [before EXCEPT ![Cur(w)] = returned]
-            /\ lateBegun' = IF closeRet THEN lateBegun \cup {Cur(w)} ELSE lateBegun
+       ELSE /\ begun' = begun \cup {OpId(w)}
+            /\ before' = [before EXCEPT ![OpId(w)] = returned]
+            /\ lateBegun' = IF closeRet THEN lateBegun \cup {OpId(w)} ELSE lateBegun
     /\ UNCHANGED <<stack, queue, waitq, running, closed, closeErr, werr, ctxDone, tclosed,
                    tcloses, tlog, flushed, batch, nexts, polls, carg, inactives, actives,
                    reads, readsLeft, rinflight, faults, cancelled, acc, accAtClose, closeRet, drainedOK, fatal>>
     /\ IF \/ FixClosed /\ closed = 1
-          \/ ~FixClosed /\ Kind(w) \in {"W1", "Wv", "M"} /\ closeErr \notin {"unset", "nil"}
+          \/ ~FixClosed /\ Kind(w) \in {"W1", "Wv", "M", "MV", "RF", "MR", "MT"} /\ closeErr \notin {"unset", "nil"}
        THEN /\ FinishAll(One(w, "closed"))
             /\ pc' = PcAfter(One(w, NextWPc(w)))
             /\ UNCHANGED <<mutex, mwait>>
@@ -250,7 +285,6 @@ WSelect(w) ==
 
 WCas(w) ==
     /\ pc[w] = "w.cas"
-    /\ FinishAll(One(w, "ok"))
     /\ UNCHANGED <<stack, queue, waitq, closed, closeErr, werr, ctxDone, tclosed, tcloses, tlog,
                    flushed, batch, mutex, mwait, polls, carg, inactives, actives, reads,
                    readsLeft, rinflight, faults, cancelled, acc, begun, before, accAtClose,
@@ -258,9 +292,9 @@ WCas(w) ==
     /\ IF running = 0
        THEN /\ nexts <= Len(SenderIds)
             /\ running' = 1 /\ nexts' = nexts + 1
-            /\ pc' = PcAfter(Merge(One(w, NextWPc(w)), One(SenderIds[nexts], "x.start")))
+            /\ ChunkDone(w, One(SenderIds[nexts], "x.start"))
        ELSE /\ UNCHANGED <<running, nexts>>
-            /\ pc' = PcAfter(One(w, NextWPc(w)))
+            /\ ChunkDone(w, Empty)
 
 \* synchronous path: the transport call under the write lock
 TWrite(w) ==
@@ -291,8 +325,13 @@ TWFlush(w) ==
                    rinflight, faults, cancelled, acc, begun, before, accAtClose, closeRet, lateBegun, drainedOK, fatal>>
     /\ IF tclosed /\ flushed < Len(tlog)
        THEN /\ FinishAll(One(w, "terr")) /\ UNCHANGED flushed
-       ELSE /\ FinishAll(One(w, "ok")) /\ flushed' = Len(tlog)
-    /\ Unlock(w, One(w, NextWPc(w)))
+            /\ Unlock(w, One(w, NextWPc(w)))
+       ELSE /\ flushed' = Len(tlog)
+            /\ IF LastChunk(w)
+               THEN /\ FinishAll(One(w, "ok")) /\ Unlock(w, One(w, NextWPc(w)))
+               ELSE /\ chk' = [chk EXCEPT ![w] = @ + 1]
+                    /\ UNCHANGED <<wret, opi, returned, okset>>
+                    /\ Unlock(w, One(w, "w.enter"))
 
 TWFlushFail(w) ==
     /\ w \in Writers /\ pc[w] = "t.flush" /\ faults > 0 /\ ~tclosed
@@ -625,7 +664,7 @@ TReadFail ==
 
 -----------------------------------------------------------------------------
 Step(p) ==
-    \/ (p \in Writers /\ (MEnter(p) \/ WEnter(p) \/ WSelect(p) \/ WCas(p) \/ TWrite(p) \/ TWFlush(p)))
+    \/ (p \in Writers /\ (MEnter(p) \/ RFEnter(p) \/ WEnter(p) \/ WSelect(p) \/ WCas(p) \/ TWrite(p) \/ TWFlush(p)))
     \/ (p \notin Writers /\ (XStart(p) \/ SPoll(p) \/ TWritev(p) \/ SLen(p) \/ TSFlush(p)
                              \/ SRelease(p) \/ SRecheck(p) \/ SRecas(p) \/ SFail(p)
                              \/ CCas(p) \/ CPoll(p) \/ CSetErr(p) \/ TClose(p) \/ CCancel(p)
@@ -663,12 +702,18 @@ C01_Prefix == NoFaultYet => IsPrefix(tlog, acc)
 C01_NoDup == \A i, j \in 1..Len(tlog) : i # j => tlog[i] # tlog[j]
 C01_ErrNoBytes ==
     \A w \in Writers : \A i \in 1..Len(wret[w]) :
-        wret[w][i] \in {"nospace", "ctx", "closed", "zero"} =>
-            <<w, i>> \notin (Range(tlog) \cup Range(queue) \cup AllBatched)
+        (wret[w][i] \in {"nospace", "ctx", "closed", "zero"} /\ NChunks[w][i] = 1) =>
+            <<w, i, 1>> \notin (Range(tlog) \cup Range(queue) \cup AllBatched)
 \* a payload whose call returned before another began precedes it
 C01_RealTime ==
-    \A b \in Range(tlog) : \A a \in before[b] :
-        (a \in okset /\ NoFaultYet /\ closed = 0) => (a \in Range(tlog) /\ Pos(tlog, a) < Pos(tlog, b))
+    \A b \in Range(tlog) : \A a \in before[OpOf(b)] :
+        (a \in okset /\ NoFaultYet /\ closed = 0) =>
+            \A ca \in ChunksOf(a) : (ca \in Range(tlog) /\ Pos(tlog, ca) < Pos(tlog, b))
+
+\* C09: the low-level writes of one call (one message) are contiguous on the transport
+C09_Contiguous ==
+    \A i, j \in 1..Len(tlog) :
+        (i < j /\ OpOf(tlog[i]) = OpOf(tlog[j])) => \A k \in i..j : OpOf(tlog[k]) = OpOf(tlog[i])
 
 \* C02: whenever something is queued on an open channel somebody is committed
 \* to look at the queue again
@@ -683,23 +728,23 @@ C02_Quiescent ==
     (Quiesced /\ closed = 0 /\ NoFaultYet /\ ~ctxDone) =>
         /\ queue = <<>>
         /\ flushed = Len(tlog)
-        /\ okset \subseteq Range(tlog)
+        /\ \A o \in okset : ChunksOf(o) \subseteq Range(tlog)
 
 \* C06: everything accepted before Close was invoked is flushed before the
 \* transport is closed (when Close did not give up waiting and nothing failed)
 FlushedSet == {tlog[i] : i \in 1..flushed}
 C06_Graceful ==
-    (tclosed /\ NoFaultYet /\ drainedOK) => accAtClose \subseteq FlushedSet
+    (tclosed /\ NoFaultYet /\ drainedOK) => \A o \in accAtClose : ChunksOf(o) \subseteq FlushedSet
 
 \* ... and the transport is never closed in the middle of a batch
 C06_NoMidBatch ==
     (tclosed /\ NoFaultYet /\ drainedOK) =>
-        \A p \in Procs : Range(batch[p]) \cap accAtClose = {}
+        \A p \in Procs : \A c \in Range(batch[p]) : OpOf(c) \notin accAtClose
 
 \* C11: a write begun after some Close call returned fails and sends nothing
 C11_FailAfterClose ==
     \A o \in lateBegun :
-        /\ o \notin (Range(tlog) \cup Range(queue) \cup AllBatched)
+        /\ ChunksOf(o) \cap (Range(tlog) \cup Range(queue) \cup AllBatched) = {}
         /\ (Len(wret[o[1]]) >= o[2] => wret[o[1]][o[2]] \in {"closed", "terr", "ctx"})
 
 \* C18: back-pressure
@@ -710,7 +755,7 @@ C18_NoSpaceOnlyWhenFull ==
           (Len(wret'[w]) > Len(wret[w]) /\ Last(wret'[w]) = "nospace") => Len(queue) = QSize]_vars
 C18_CancelNoBytes ==
     \A w \in Writers : \A i \in 1..Len(wret[w]) :
-        wret[w][i] \in {"ctx", "closed", "zero"} => <<w, i>> \notin Range(tlog)
+        (wret[w][i] \in {"ctx", "closed", "zero"} /\ NChunks[w][i] = 1) => <<w, i, 1>> \notin Range(tlog)
 
 \* C05: lifecycle
 C05_Once == tcloses <= 1 /\ Len(inactives) <= 1 /\ actives <= 1
@@ -730,7 +775,7 @@ C07_FaultCloses ==
 \* liveness (FairSpec)
 C07_FaultEventuallyCloses == fatal ~> (tclosed /\ pc["R"] \in {"done", "none"})
 AllWritersDone == \A w \in Writers : pc[w] = "done"
-Delivered == okset \subseteq FlushedSet
+Delivered == \A o \in okset : ChunksOf(o) \subseteq FlushedSet
 C02_Live == (AllWritersDone /\ closed = 0) ~> (Delivered \/ closed = 1 \/ ~NoFaultYet)
 C18_WaitEnds == \A w \in Writers : (pc[w] = "w.blocked") ~> (pc[w] # "w.blocked")
 C05_ReadLoopEnds == (tclosed \/ closed = 1) ~> (pc["R"] \in {"done", "none"})
